@@ -1,6 +1,7 @@
 import DriverLib.Ops
 import Gonnx.Graph.Validate
 import Gonnx.Graph.Decode
+import Gonnx.Graph.NewModel
 import Gonnx.Spec.Run
 import DriverLib.Dispatch
 /-
@@ -99,5 +100,24 @@ def runGraph (j : Json) : Json :=
       | .error e => .error e
     Json.mkObj [("model", outJson model), ("spec", outJson spec)]
   | _, _ => Json.mkObj [("model", Json.mkObj [("status", "inexact")])]
+
+end Drv
+
+namespace Drv
+open Lean Gonnx
+
+/-- C18: the parsed ModelProto (the harness unmarshals the bytes itself) -/
+def runLoad (j : Json) : Json :=
+  let p := getObj j "p"
+  match p.getObjVal? "parsed" with
+  | .ok mp =>
+    let m : ModelProtoM := {
+      hasGraph := match mp.getObjVal? "has_graph" with | .ok (.bool b) => b | _ => true,
+      initializers := (getArr mp "initializers").toList.map parseTP,
+      opsetVersions := jsonInts (getArr mp "opsets") }
+    match newModel Generated.supportedOpsets m with
+    | .ok (ps, v) => Json.mkObj [("status", "ok"), ("n_params", toJson ps.length), ("opset", toJson v)]
+    | .error e => errJson e
+  | .error _ => Json.mkObj [("status", "unmodelled")]
 
 end Drv
